@@ -116,7 +116,10 @@ func junkBody(r *rand.Rand, cfg Cfg, b *strings.Builder, depth int) {
 			if cfg.BootstrapSubset {
 				b.WriteString([]string{`'x'`, `'\''`, `'\\'`, `'"'`}[r.Intn(4)])
 			} else {
-				b.WriteString([]string{`'{'`, `'}'`, `'\''`, `'\\'`, `'"'`, "'`'", `'\x7b'`, `'}'`}[r.Intn(8)])
+				// every escape form of a rune literal (what follows the backslash may be several characters), alone and
+				// followed by a brace in a rune literal of its own
+				b.WriteString([]string{`'{'`, `'}'`, `'\''`, `'\\'`, `'"'`, "'`'", `'\x7b'`, `'}'`, `'\033'`, `'\u00a0'`, `'\U0001F600'`, `'\n'`,
+					`'\x1b', '{'`, `'\175', '}'`, `'\u007b', '}', '{'`, `'\a', '\''`}[r.Intn(16)])
 			}
 		case x == 9:
 			if cfg.BootstrapSubset {
